@@ -125,7 +125,7 @@ func sealedHello(outerExts, innerExts []aExt, enc aEnc, cid int, suite string, o
 
 // replayConnCase replays one history. parked: a Read that follows a Write in the history is already blocked in the
 // transport when the Write happens (a proxy with one goroutine per direction), the record arriving afterwards.
-func replayConnCase(kr *keyring, c *connCase, parked bool) (diff string) {
+func replayConnCase(kr *keyring, c *connCase, parked, byref bool) (diff string) {
 	defer func() {
 		if r := recover(); r != nil {
 			diff = fmt.Sprint("panic: ", r)
@@ -133,6 +133,20 @@ func replayConnCase(kr *keyring, c *connCase, parked bool) (diff string) {
 	}()
 	s := newSealer(kr)
 	eo := encOpts{padLen: 9}
+	// layout of every hello of this connection: inner extensions inline, or supported_groups and ALPN carried by
+	// reference (ech_outer_extensions) as real clients do - the retry rules are about the *reconstructed* hello
+	stdOuter, stdInner, stdInnerFull, innerEoe := stdOuter, stdInner, stdInner, []string(nil)
+	if byref {
+		stdOuter = []aExt{{"sni", "pub"}, {"sg", "g"}, {"ks", "k"}, {"alpn", "ai"}, {"sv", "13"}, {"ech", "E"}}
+		stdInner = []aExt{{"sni", "priv"}, {"eoe", "E"}, {"ks", "ki"}, {"sv", "13"}, {"ech", "I"}}
+		stdInnerFull = []aExt{{"sni", "priv"}, {"sg", "g"}, {"alpn", "ai"}, {"ks", "ki"}, {"sv", "13"}, {"ech", "I"}}
+		innerEoe = []string{"sg", "alpn"}
+	}
+	sealedHello := func(outerExts, innerExts []aExt, enc aEnc, cid int, suite string, ok bool) *aHello {
+		h := sealedHello(outerExts, innerExts, enc, cid, suite, ok)
+		h.Ech.Ct.Pt.Eoe = innerEoe
+		return h
+	}
 	keyNames := map[string][]string{"K1": {"K1"}, "K3K1": {"K3", "K1"}, "K2K1": {"K2", "K1"}}[c.Keys]
 	first := aEnc{To: "k1", Id: "e1"}
 	var ch1 *aHello
@@ -161,7 +175,7 @@ func replayConnCase(kr *keyring, c *connCase, parked bool) (diff string) {
 		return "reading the first hello: " + err.Error()
 	}
 	wantFirst := ch1rec
-	innerRec := expectedInnerRecord(kr, &aInner{Sid: "s1", Exts: stdInner}, eo)
+	innerRec := expectedInnerRecord(kr, &aInner{Sid: "s1", Exts: stdInnerFull}, eo)
 	if c.First == "acc" {
 		wantFirst = innerRec
 	}
@@ -187,9 +201,15 @@ func replayConnCase(kr *keyring, c *connCase, parked bool) (diff string) {
 		case "CH2sni":
 			h = sealedHello(stdOuter, setExt(stdInner, "sni", "other"), empty, 7, "s1", true)
 		case "CH2alpn":
-			h = sealedHello(stdOuter, setExt(stdInner, "alpn", "ao"), empty, 7, "s1", true)
+			if byref { // the referenced outer ALPN changed: the reconstructed inner hello no longer has the first one's list
+				h = sealedHello(setExt(stdOuter, "alpn", "ao"), stdInner, empty, 7, "s1", true)
+			} else {
+				h = sealedHello(stdOuter, setExt(stdInner, "alpn", "ao"), empty, 7, "s1", true)
+			}
 		case "CH2outerSni":
 			h = sealedHello(setExt(stdOuter, "sni", "other"), stdInner, empty, 7, "s1", true)
+		case "CH2no13":
+			h = sealedHello(setExt(stdOuter, "sv", "12"), stdInner, empty, 7, "s1", true)
 		case "CH2innerType":
 			h = &aHello{Sid: "s1", Exts: stdOuter, Pad: "none", Ech: aEch{Type: "inner"}}
 		}
@@ -336,6 +356,15 @@ func parkedMode(c *connCase) bool {
 	return false
 }
 
+func hasCH2(c *connCase) bool {
+	for _, st := range c.Hist {
+		if len(st[1]) > 3 && st[1][:3] == "CH2" {
+			return true
+		}
+	}
+	return false
+}
+
 func TestEchConnHistories(t *testing.T) {
 	in, out := os.Getenv("VH_IN"), os.Getenv("VH_OUT")
 	if in == "" || out == "" {
@@ -359,10 +388,15 @@ func TestEchConnHistories(t *testing.T) {
 		go func(i int) {
 			defer wg.Done()
 			defer func() { <-sem }()
-			results[i] = replayConnCase(kr, &cases[i], false)
+			results[i] = replayConnCase(kr, &cases[i], false, false)
 			if results[i] == "" && parkedMode(&cases[i]) {
-				if d := replayConnCase(kr, &cases[i], true); d != "" {
+				if d := replayConnCase(kr, &cases[i], true, false); d != "" {
 					results[i] = "(Read parked before the Write) " + d
+				}
+			}
+			if results[i] == "" && cases[i].First == "acc" && hasCH2(&cases[i]) {
+				if d := replayConnCase(kr, &cases[i], false, true); d != "" {
+					results[i] = "(supported_groups and ALPN by ech_outer_extensions reference) " + d
 				}
 			}
 		}(i)
